@@ -64,6 +64,9 @@ WORKROOT = os.path.join(tlc.WORK, 'c12')
 LEAN_JVM = dict(JAVA_TOOL_OPTIONS='-XX:TieredStopAtLevel=1 -XX:ParallelGCThreads=2 -XX:CICompilerCount=1')
 
 MERGE_ACTIONS = ['AddSet', 'Start', 'MergeStep', 'StartFinish', 'Finish', 'Done']
+# vacuity guard: every action of every machine must have been taken in the TLC run made with -coverage
+ACTIONS = dict(struct=['SplineDim', 'Ravel', 'DiscontOn', 'LegendreOn', 'RemoveDofs', 'Mask', 'Prune', 'Part'], merge=MERGE_ACTIONS,
+               nodal=['AddSimplex', 'Build'], hier=['Refine', 'Build'], multi=['AddPatch', 'Build'])
 STRUCT_OPS = ['dim', 'ravel', 'discont', 'legendre', 'rem', 'mask', 'prune', 'part']
 # spec mutant -> invariants one of which must be violated
 MUTANTS = {
@@ -141,9 +144,9 @@ def plan(tier, seed):
         jobs['struct-der'] = ('struct', 'MCBasis', dict(cfg='MCBasis_der.cfg'), True)
         jobs['struct-rnd'] = ('struct', 'MCBasisRnd', dict(cfg_text=_cfg_basis('RndA', 'RndB', 2, 'Rem_3', 3, 5, 3), extra_modules=[rnd], simulate=dict(num=12), depth=8, seed=seed), False)
         jobs['merge'] = ('merge', 'MergeIndex', dict(cfg='MergeIndex.cfg', coverage=True), True)
-        jobs['nodal'] = ('nodal', 'MCNodal', dict(cfg='MCNodal.cfg'), True)
-        jobs['hier'] = ('hier', 'MCHier', dict(cfg='MCHier.cfg'), True)
-        jobs['multi'] = ('multi', 'MCMulti', dict(cfg='MCMulti.cfg'), True)
+        jobs['nodal'] = ('nodal', 'MCNodal', dict(cfg='MCNodal.cfg', coverage=True), True)
+        jobs['hier'] = ('hier', 'MCHier', dict(cfg='MCHier.cfg', coverage=True), True)
+        jobs['multi'] = ('multi', 'MCMulti', dict(cfg='MCMulti.cfg', coverage=True), True)
         muts = [sorted(MUTANTS)[seed % len(MUTANTS)]]
     else:
         jobs['struct-1d'] = ('struct', 'MCBasis', dict(cfg_text=_cfg_basis('Dims_1d_big', 'Dims_1d_big', 1, 'Rem_3', 0, 0, 0, kinds='Kinds_struct')), True)
@@ -165,6 +168,12 @@ def plan(tier, seed):
         jobs['multi'] = ('multi', 'MCMulti', dict(cfg_text=_cfg_generic(['BoxW = 3', 'BoxH = 2', 'MaxPatches = 4', 'NSet <- N_12', 'BuildSet <- Builds_all'], MULTI_INVS)), True)
         jobs['multi-1d'] = ('multi', 'MCMulti', dict(cfg_text=_cfg_generic(['BoxW = 4', 'BoxH = 0', 'MaxPatches = 4', 'NSet <- N_123', 'BuildSet <- Builds_all'], MULTI_INVS)), True)
         muts = sorted(MUTANTS)
+    # a small complete run of BasisMachine (two factors, every construction, one derived step) with TLC's action coverage
+    jobs['struct-cov'] = ('struct', 'MCBasis', dict(cfg_text=_cfg_basis('Dims_cov', 'Dims_cov', 2, 'Rem_2', 1, 4, 3), coverage=True), True)
+    if tier != 'quick':
+        jobs['nodal-cov'] = ('nodal', 'MCNodal', dict(cfg='MCNodal.cfg', coverage=True), True)
+        jobs['hier-cov'] = ('hier', 'MCHier', dict(cfg='MCHier.cfg', coverage=True), True)
+        jobs['multi-cov'] = ('multi', 'MCMulti', dict(cfg='MCMulti.cfg', coverage=True), True)
     for m in muts:
         module, want = MUTANTS[m]
         if module == 'MCBasis':
@@ -192,6 +201,7 @@ def generate(rep, jobs):
         results = dict(pool.map(_run_job, jobs.items()))
     rep.lap('tlc design runs')
     emitted = collections.defaultdict(list)
+    covered = set()
     for name, res in results.items():
         fam, module, kw, exhaustive = jobs[name]
         if fam == 'mutant':
@@ -203,14 +213,17 @@ def generate(rep, jobs):
         rep.add_tlc(res, exhaustive=exhaustive)
         if res.violated:
             raise RuntimeError('design spec run {} violates {}:\n{}'.format(name, res.violated, '\n'.join(res.error_trace[:80])))
-        if kw.get('coverage'):     # vacuity guard with TLC's own action coverage (the other machines: counted from the emitted states below)
-            missing = [a for a in MERGE_ACTIONS if res.coverage.get(a, (0, 0))[1] == 0]
+        if kw.get('coverage'):     # vacuity guard with TLC's own action coverage (and, below, counted from the emitted states)
+            missing = [a for a in ACTIONS[fam] if res.coverage.get(a, (0, 0))[1] == 0]
             if missing:
-                raise RuntimeError('MergeIndex: actions never taken in the coverage run: {}'.format(missing))
+                raise RuntimeError('{} ({}): actions never taken in the coverage run: {}'.format(module, name, missing))
+            covered.add(fam)
         if not res.emitted:
             raise RuntimeError('design spec run {} emitted no state'.format(name))
         emitted[fam] += res.emitted
         rep.extra.setdefault('states_emitted', {})[name] = len(res.emitted)
+    if covered != set(ACTIONS):
+        raise RuntimeError('no TLC coverage run for the machines {}'.format(sorted(set(ACTIONS) - covered)))
     # vacuity guards on what the machines did (counted from the emitted states)
     ops = collections.Counter(e['hist'][-1]['op'] for e in emitted['struct'])
     missing = [o for o in STRUCT_OPS if not ops[o]]
